@@ -31,6 +31,7 @@ import (
 	nrilog "github.com/containerd/nri/pkg/log"
 	"github.com/containerd/nri/pkg/net"
 	"github.com/containerd/nri/pkg/net/multiplex"
+	"github.com/containerd/nri/pkg/vhook"
 	"github.com/containerd/ttrpc"
 )
 
@@ -429,6 +430,7 @@ func (stub *stub) Start(ctx context.Context) (retErr error) {
 		return err
 	}
 
+	vhook.Point("stub.waitcfg", stub)
 	if err = <-stub.cfgErrC; err != nil {
 		return err
 	}
@@ -577,6 +579,7 @@ func (stub *stub) register(ctx context.Context) error {
 
 // Handle a lost connection.
 func (stub *stub) connClosed() {
+	vhook.Point("stub.connclosed", stub)
 	stub.Lock()
 	stub.close()
 	stub.Unlock()
